@@ -365,7 +365,7 @@ func ruleC03R4(r *Run) {
 	}
 	n := 0
 	for _, fa := range p.fieldAccesses("bufBitStream") {
-		if fa.Fn != fn || fa.Field != "buf" || fa.Kind != "read" {
+		if !p.within(fa.Fn, fn) || fa.Field != "buf" || fa.Kind != "read" {
 			continue
 		}
 		ld := fa.Instr.(*ssa.UnOp)
@@ -1065,7 +1065,7 @@ func ruleC03R9(r *Run) {
 			continue
 		}
 		n++
-		name := p.fnName(fa.Fn)
+		name := p.hostName(fa.Fn)
 		r.Check(name+"#repeat."+fa.Field+"."+fa.Kind, fa.Instr.Pos(), owners[name] && fa.Kind == "write", "length-control state is written by the repeat type itself",
 			"repeat."+fa.Field+" is written ("+fa.Kind+") in "+name+": the minimum/maximum length guarantees of more()/reject() rely on invariants that only they maintain (e.g. forceStop ⇒ count >= minCount)")
 	}
@@ -1073,7 +1073,7 @@ func ruleC03R9(r *Run) {
 	if fn := r.MustFn("(*repeat).reject"); fn != nil {
 		nFS := 0
 		for _, fa := range p.fieldAccesses("repeat") {
-			if fa.Fn != fn || fa.Field != "forceStop" || fa.Kind != "write" {
+			if !p.within(fa.Fn, fn) || fa.Field != "forceStop" || fa.Kind != "write" {
 				continue
 			}
 			nFS++
